@@ -233,7 +233,9 @@ func (ctrl *QController[Input, Output]) Reconcile(ctx context.Context, logger *z
 }
 
 func (ctrl *QController[Input, Output]) reconcileRunning(ctx context.Context, logger *zap.Logger, r controller.QRuntime, in Input, mappedOut Output) error {
-	if !in.Metadata().Finalizers().Has(ctrl.Name()) && in.Metadata().Phase() == resource.PhaseRunning {
+	// the input might be tearing down here if the teardown is being ignored: the output is going to be (re)created,
+	// so the finalizer is required in this case as well, otherwise the input might be destroyed leaving the output orphaned
+	if !in.Metadata().Finalizers().Has(ctrl.Name()) {
 		if err := r.AddFinalizer(ctx, in.Metadata(), ctrl.Name()); err != nil {
 			return fmt.Errorf("error adding input finalizer: %w", err)
 		}
